@@ -256,6 +256,66 @@ pub fn run_bytecode(bytecode: Bytecode, pkt: Option<Rc<crate::builtins::pcap::Pc
     }
 }
 
+/// What happened when the filters of a program were run the way `run_filters` in src/main.rs runs them.
+pub struct FilterRounds {
+    /// error of the main program, if any (then no filter ran)
+    pub main_err: Option<(String, usize)>,
+    /// operand stack height after the main program
+    pub sp_main: usize,
+    /// (packet number, filter index or usize::MAX for the end filter, height before, height after, error)
+    pub steps: Vec<(usize, usize, usize, usize, Option<String>)>,
+    pub num_filters: usize,
+    pub locals: Vec<usize>,
+    pub g0: Val,
+}
+
+/// Mirror of `run_filters` (src/main.rs) without the pcap streams: the main program, then every filter on every
+/// packet, then the end filter; a failed filter ends the run as it does there.
+pub fn run_filter_rounds(bytecode: Bytecode, pkts: &[Rc<crate::builtins::pcap::PcapPacket>]) -> Result<FilterRounds, PanicInfo> {
+    let pkts: Vec<_> = pkts.to_vec();
+    catch(move || {
+        let filters = bytecode.filters.clone();
+        let filter_end = bytecode.filter_end.clone();
+        let mut vm = VM::new(bytecode);
+        init_vars(&vm, &[]);
+        let mut out = FilterRounds { main_err: None, sp_main: 0, steps: vec![], num_filters: filters.len(), locals: filters.iter().map(|f| f.num_locals).collect(), g0: Val::Null };
+        if let Err(e) = vm.run() {
+            out.main_err = Some((e.msg.clone(), e.line));
+            return out;
+        }
+        out.sp_main = vm.verif_sp();
+        let mut failed = false;
+        'pk: for (n, pkt) in pkts.iter().enumerate() {
+            vm.set_curr_pkt(pkt.clone());
+            vm.update_builtin_var(BuiltinVarType::NP, Rc::new(Object::Integer(n as i64 + 1)));
+            for (k, f) in filters.iter().enumerate() {
+                let before = vm.verif_sp();
+                let r = vm.push_filter_frame(f).and_then(|_| vm.run()).and_then(|_| vm.pop_filter_frame().map(|_| ()));
+                let after = vm.verif_sp();
+                let err = r.err().map(|e| e.msg.clone());
+                let stop = err.is_some();
+                out.steps.push((n + 1, k, before, after, err));
+                if stop {
+                    failed = true;
+                    break 'pk;
+                }
+            }
+        }
+        if !failed {
+            vm.update_builtin_var(BuiltinVarType::PL, Rc::new(Object::Null));
+            vm.update_builtin_var(BuiltinVarType::WL, Rc::new(Object::Null));
+            if let Some(f) = filter_end {
+                let before = vm.verif_sp();
+                let r = vm.push_filter_frame(&f).and_then(|_| vm.run()).and_then(|_| vm.pop_filter_frame().map(|_| ()));
+                let after = vm.verif_sp();
+                out.steps.push((pkts.len(), usize::MAX, before, after, r.err().map(|e| e.msg.clone())));
+            }
+        }
+        out.g0 = val_of(&vm.globals[0]);
+        out
+    })
+}
+
 /// Run a text with a current packet installed (so `$n` works outside filter mode).
 pub fn run_text_with_pkt(src: &str, pkt: Rc<crate::builtins::pcap::PcapPacket>) -> Outcome {
     match compile_text(src) {
